@@ -48,6 +48,11 @@ pub fn run(sim: &Sim, _idx: u64) {
     // *ends* instead of the signal firing (a graceful server still drains)
     let accept_errors: Vec<u64> = if sim.chance(1, 4) { (0..sim.range(1, 3)).map(|_| sim.pick(&[0u64, 500, 20_000, 60_000, 150_000])).collect() } else { vec![] };
     let end_incoming_instead = !edge && sim.chance(1, 5);
+    // a burst: 48 connections reach the listener in the very tick in which the signal fires. The
+    // accept loop may still take a few of them (listener and signal are ready together), but a
+    // server that takes all of them only looks at the signal when nobody is waiting to be accepted
+    const BURST: usize = 48;
+    let burst = !edge && !end_incoming_instead && sim.chance(1, 6);
     // server knobs that must not weaken the drain: a request timeout (bounds the time to the
     // response *headers* only; handler latencies stay below it) and a maximum connection age (the
     // server gracefully retires a connection of that age; its accepted calls still complete and
@@ -201,6 +206,20 @@ pub fn run(sim: &Sim, _idx: u64) {
         }
         t_sig = edge_fired.lock().unwrap().unwrap_or_else(|| net.now());
         let entered_at_signal = handler.entered().len();
+        let mut burst_clients = vec![];
+        let mut burst_ids: Vec<usize> = vec![];
+        if burst {
+            if let Some(tx) = inc_tx.lock().unwrap().clone() {
+                for _ in 0..BURST {
+                    let (c, s) = net.pair();
+                    burst_ids.push(s.conn_id());
+                    let _ = tx.send(Ok(s));
+                    burst_clients.push(c);
+                }
+            }
+            sim.fault("connection-burst-at-the-signal");
+            sim.ev(|| format!("t={t_sig:?} {BURST} connections reach the listener together with the signal"));
+        }
         if end_incoming_instead {
             // the incoming stream ends; the signal itself never fires
             sim.ev(|| format!("t={t_sig:?} INCOMING STREAM ENDS ({entered_at_signal} handlers entered so far)"));
@@ -217,6 +236,7 @@ pub fn run(sim: &Sim, _idx: u64) {
         }
         // one more connection, strictly after the signal
         tokio::time::sleep(Duration::from_micros(sim.pick(&[1u64, 1_000]))).await;
+        drop(burst_clients); // the burst's clients give up
         let conns_before_late = net.n_conns();
         let late = {
             let connector = connector.clone();
@@ -279,6 +299,16 @@ pub fn run(sim: &Sim, _idx: u64) {
         // (2) no connection accepted after the signal
         if entered.contains(&999) || late_ok {
             v13(sim, "connection-accepted-after-signal", format!("the connection offered after the signal was served (handler entered: {}, call succeeded: {late_ok})", entered.contains(&999)));
+        }
+        // (2b) the burst that arrived together with the signal
+        if burst {
+            let taken = yielded.lock().unwrap().iter().filter(|id| burst_ids.contains(id)).count();
+            sim.ev(|| format!("{taken} of the {BURST} burst connections were handed to the accept loop"));
+            if taken == BURST {
+                v13(sim, "signal-ignored-while-connections-are-queued", format!("all {BURST} connections that reached the listener together with the signal were accepted after it"));
+            } else {
+                sim.probe("burst-at-signal-mostly-refused");
+            }
         }
         // (3) the serve future resolves only after all (accepted) connections have closed, and does resolve
         let accepted: Vec<usize> = yielded.lock().unwrap().clone();
